@@ -39,6 +39,13 @@ pub fn pending_injections(role: Role) -> usize {
     queues().lock().unwrap()[index(role)].len()
 }
 
+/// Drop every queued injection (between scenarios of one harness process).
+pub fn clear_injections() {
+    for queue in queues().lock().unwrap().iter_mut() {
+        queue.clear();
+    }
+}
+
 pub struct InjectSource(pub Role);
 
 impl<Target> Package<Target> for InjectSource
